@@ -306,6 +306,9 @@ func (fr *frame) fmtTyped(t types.Type, v value, verb byte, depth int, plus, sha
 				return strSegs("false")
 			}
 		case ut.Info()&types.IsInteger != 0:
+			if sharp && verb == 'v' && ut.Info()&types.IsUnsigned != 0 {
+				panic(pathAbort{"unsupported", "%#v of an unsigned integer (hexadecimal Go syntax)"})
+			}
 			switch verb {
 			case 'v', 'd':
 				return intSegs(v)
@@ -338,6 +341,9 @@ func (fr *frame) fmtTyped(t types.Type, v value, verb byte, depth int, plus, sha
 			}
 			return strSegs(fmt.Sprintf("%"+string(verb), v))
 		case ut.Kind() == types.String:
+			if sharp && verb == 'v' {
+				return fr.fmtString(v, 'q') // Go syntax: a quoted string
+			}
 			return fr.fmtString(v, verb)
 		case ut.Kind() == types.UnsafePointer:
 			return strSegs("0x0")
